@@ -1,23 +1,28 @@
 /-
 Driver section `kind planx` of mode c19 (harness/c19_planarise.h): exact tie of
-`dialect::OrthoPlanariser::planarise` with `AdaptaVerif.Model.Planarise.planarise`.
+`dialect::OrthoPlanariser::planarise` with `AdaptaVerif.Model.Planarise.planarise`, and the clauses of the
+property on the library's output.
 
-The model is run on the routed input (`pn`/`pe`) and compared, stage by stage, with what the library produced:
-  bends   — `Edge::getBendNodes()` of every edge (`pb`)                     (buildUniqueBendPoints)
-  ofree   — node set and directed edge multiset of m_overlapFreeGraph (`on`/`oe`)   (computeNodeGroups)
+Tie.  The model is run on the routed input (`pn`/`pe`) and compared, stage by stage, with what the library produced:
+  bends   — `Edge::getBendNodes()` of every edge (`pb`)                               (buildUniqueBendPoints)
+  ofree   — node set and directed edge multiset of m_overlapFreeGraph (`on`/`oe`)     (computeNodeGroups)
   planar  — node positions and directed edge multiset of the planar graph (`qn`/`qe`) (computeCrossings)
-New nodes are renamed by rank of their library id (ids come from one global counter, so id order =
-creation order; the model numbers new nodes in creation order).  Any difference is DIVERGE — unless the
-case is *ambiguous as coded*: the library's result then depends on `std::sort`'s treatment of ties /
-of a comparator that is not a strict weak order, on heap addresses (`std::set<Event*>`), or on the
-rounding of the running average in `partition`; such cases are only counted (`planx.ambiguous*`).
+New nodes are renamed by rank of their library id (ids come from one global counter, so id order = creation
+order; the model numbers new nodes in creation order).  A difference is DIVERGE — unless the case is *ambiguous
+as coded* for that stage: the library's result then depends on `std::sort`'s treatment of ties / of a comparator
+that is not a strict weak order, on heap addresses (`std::set<Event*>`), or on the rounding of the running average
+in `partition` (`Check.Planarise.ambiguity`); such cases are only counted (`planx.ambiguous*`).  The bend stage
+has no such dependence and is always compared.  Cases carrying a `witness` line (the closed witnesses of
+Props/C19Planarise.lean) must tie exactly.
 
-Spec side (SPECFAIL), on inputs that satisfy the hypothesis of the theorems of Props/C19Planarise
-(`separatedB`: orthogonal routes from centre to centre, any two distinct coordinates more than 1 apart):
-  every original node present; the crossing nodes are exactly the points where a horizontal and a vertical
-  edge of the overlap-free graph meet with  H.lo < x ≤ H.hi, V.lo < y < V.hi  (the condition the sweep
-  implements; = proper crossings when no right end touches a vertical); no two edges of the result
-  properly cross; every original adjacency is realised by a chain of new nodes.
+Spec (SPECFAIL, reported before a tie difference because it is a concrete failing input):
+  * always: every original node is present at its position (`planarise_preserves_nodes`);
+  * if the segment list the LIBRARY hands to computeCrossings (one EdgeSegment per edge of its overlap-free graph)
+    satisfies `goodB` (= hypothesis `Good` of `crossings_sound` / `crossings_complete`, `goodB_sound`): the crossing
+    nodes are exactly the points (v.cc, h.cc) with  h.lo < v.cc ≤ h.hi, v.lo < h.cc < v.hi;
+  * if the input satisfies `separatedB` (orthogonal centre-to-centre routes, distinct coordinates more than 1 apart,
+    no route through a third node's centre): no two edges of the result properly cross, and every original adjacency
+    is realised by a chain of new nodes.
 -/
 import Driver.Proto
 import AdaptaVerif.Model.Planarise
@@ -71,7 +76,9 @@ def checkPlanX (c : Case) : CaseResult := Id.run do
     | some r => base + r
     | none => 1000000 + i       -- a node of an earlier stage that vanished from the planar graph
   let renN (n : Node) : Node := ⟨ren n.id, n.p⟩
-  let amb := ambiguity inp
+  let isWitness := (c.get1 "witness").isSome     -- fixed witnesses of Props/C19Planarise: the tie must be exact
+  let amb0 := ambiguity inp
+  let amb : Ambiguity := if isWitness then {} else amb0
   let mut stats : List (String × Nat) := [("planx.nodes", inp.nodes.length), ("planx.edges", inp.edges.length),
       ("planx.crossNodes", out.crossNodes.length), ("planx.bendNodes", out.bendNodes.length)]
   if amb.any then stats := ("planx.ambiguous", 1) :: stats
@@ -86,12 +93,13 @@ def checkPlanX (c : Case) : CaseResult := Id.run do
   | none => pure ()
   -- tie, stage by stage; a difference is excused only by an ambiguity that can influence that stage
   let implBends : Option (List (List Node)) := (c.get "pb").toList.mapM (fun l => nodes3? (l.extract 1 l.size).toList)
+  let mut tieFail : Option String := none     -- reported (DIVERGE) after the spec checks, which give concrete failing inputs
   match implBends with
-  | none => return { verdict := .diverge "planarise tie: bends unparsable", stats := stats }
+  | none => tieFail := some "bends unparsable"
   | some ib =>
     let ib := ib.map (·.map renN)
     if ib != out.bends then
-      return { verdict := .diverge s!"planarise tie: bends: impl {ib.map showNodes} model {out.bends.map showNodes}", stats := stats }
+      tieFail := some s!"bends: impl {ib.map showNodes} model {out.bends.map showNodes}"
   let mut diff : Option String := none
   -- overlap-free graph (partition + group sort)
   let mN := sortNodes (inp.nodes ++ out.bendNodes)
@@ -102,8 +110,7 @@ def checkPlanX (c : Case) : CaseResult := Id.run do
   else if mE != iOE then diff := some s!"overlap-free edges: impl {iOE} model {mE}"
   match diff with
   | some d =>
-    if !(amb.fragile || amb.groupTies) then
-      return { verdict := .diverge s!"planarise tie: {d}", stats := stats }
+    if !(amb.fragile || amb.groupTies) && tieFail.isNone then tieFail := some d
   | none => pure ()
   -- planar graph
   let iE := sortPairs ((c.get "qe").toList.map (fun l => (ren (nat! l[0]!), ren (nat! l[1]!))))
@@ -116,7 +123,7 @@ def checkPlanX (c : Case) : CaseResult := Id.run do
   match diff with
   | some d =>
     if amb.any then stats := ("planx.ambiguousMismatch", 1) :: stats
-    else return { verdict := .diverge s!"planarise tie: {d}", stats := stats }
+    else if tieFail.isNone then tieFail := some d
   | none => stats := ("planx.tieExact", 1) :: stats
   -- spec checks on the implementation's output, under the theorems' hypothesis
   -- crossings_sound / crossings_complete on the segment list the LIBRARY hands to computeCrossings
@@ -150,6 +157,9 @@ def checkPlanX (c : Case) : CaseResult := Id.run do
     match inp.edges.find? (fun e => !chainB origIds iE e.src.id e.tgt.id) with
     | some e => return { verdict := .specfail s!"planarise: adjacency {e.src.id}-{e.tgt.id} not realised by a chain of new nodes (planarise_preserves_nodes_and_connections)", stats := stats }
     | none => pure ()
+  match tieFail with
+  | some d => return { verdict := .diverge s!"planarise tie: {d}", stats := stats }
+  | none => pure ()
   return { verdict := .ok, nontrivial := out.crossNodes.length > 0, stats := stats }
 
 end Driver.C19Planarise
